@@ -263,6 +263,10 @@ theorem Gen.asChar [Prims S E] (n : Nat) :
     PRel S E Eq (asChar n) (asChar n) := by
   unfold Parse.asChar; psim
 macro_rules | `(tactic| psim_lemma) => `(tactic| with_reducible exact Gen.asChar ..)
+theorem Gen.asEscapedChar [Prims S E] (n : Nat) :
+    PRel S E Eq (asEscapedChar n) (asEscapedChar n) := by
+  unfold Parse.asEscapedChar; psim
+macro_rules | `(tactic| psim_lemma) => `(tactic| with_reducible exact Gen.asEscapedChar ..)
 theorem Gen.decodeElispCharEscape [Prims S E] (fuel : Nat) :
     PRel S E Eq (decodeElispCharEscape fuel) (decodeElispCharEscape fuel) := by
   unfold Parse.decodeElispCharEscape; psim
